@@ -79,7 +79,7 @@ UNIT = dict(
         "Aimd::record_failure@ConcurrencyAlgorithm": dict(file="alg"),
         "Aimd::limit@ConcurrencyAlgorithm": dict(file="alg"),
         "AimdController::new": dict(file="aimd", rules=[
-            ("sub", "R7-new", r"AtomicUsize::new\(initial\)", "AtomicUsize::new(Ghost(config), initial, Tracked(()))", 1),
+            ("wrapcalls", "R7-new", r"AtomicUsize::new", "AtomicUsize::new(Ghost(config), {args}, Tracked(()))", 1),
         ]),
         "AimdController::clone@Clone": dict(file="aimd", rules=[
             ("sub", "R7-new", r"AtomicUsize::new\(self\.limit\.load\(Ordering::Relaxed\)\)", "AtomicUsize::new(Ghost(self.config), vx_cur, Tracked(()))", 1),
